@@ -254,24 +254,38 @@ pub fn run(ctx: &Ctx) -> i32 {
         }
         ctx.eval(gen::case_hash(&cfg, &entries), true);
     });
-    let n = ctx.n(500, 20_000);
+    let n = ctx.n(1000, 20_000);
     ctx.par("files", n, true, |idx, rng| {
         let (entries, cfg, _) = gen::gen_file_case(rng, 20_000);
         let picks: Vec<Split> = (0..2).map(|_| rng.pick(&all_splits).clone()).collect();
+        let (entries, cfg) = if idx % 5 == 0 {
+            let mut c = cfg;
+            c.levels = Some(0);
+            (entries, c)
+        } else {
+            (entries, cfg)
+        };
         if let Some(bytes) = writer_case(ctx, "files", idx, &cfg, &entries, rng) {
             let nontrivial = bytes.len() > 2000;
+            // every fifth file is read back as a V1 file (21-byte trailer)
+            let bytes = if idx % 5 == 0 {
+                ctx.count("v1_files_read_under_schedules", 1);
+                super::c10::to_v1(&bytes)
+            } else {
+                bytes
+            };
             reader_case(ctx, "files", idx, &cfg, &entries, bytes, rng, &picks);
             ctx.eval(gen::case_hash(&cfg, &entries), nontrivial);
             ctx.sample(|| J::obj().set("scenario", "writer+reader").set("config", cfg.render()).set("n_entries", entries.len()).set("schedules", J::Arr(picks.iter().map(|s| J::Str(s.name())).collect())));
         }
     });
-    let n = ctx.n(400, 15_000);
+    let n = ctx.n(800, 15_000);
     ctx.par("mergers", n, true, |idx, rng| {
         let picks: Vec<Split> = (0..2).map(|_| rng.pick(&all_splits).clone()).collect();
         merger_case(ctx, "mergers", idx, rng, &picks);
         ctx.eval(crate::prng::mix(&[idx, 0xAA]), true);
     });
-    let n = ctx.n(250, 10_000);
+    let n = ctx.n(400, 10_000);
     ctx.par("sorters", n, true, |idx, rng| {
         let picks: Vec<Split> = (0..2).map(|_| rng.pick(&all_splits).clone()).collect();
         sorter_case(ctx, "sorters", idx, rng, &picks);
